@@ -2,5 +2,5 @@ INIT Init
 NEXT Next
 CONSTANT Tier = "quick"
 ACTION_CONSTRAINT Emit
-INVARIANT ExactOnImage NaNStaysNaN BytesRoundTrip Overflow Bracket Monotone
+INVARIANT ExactOnImage NaNStaysNaN BytesRoundTrip Overflow Bracket Monotone ClassConstant
 CHECK_DEADLOCK FALSE
